@@ -112,3 +112,13 @@ def define(g, prop, name, params, body, pres, **meta):
     f.__vrt_source__ = src
     g[name] = obligation(prop, **meta)(f)
     return g[name]
+
+
+def concretize(x, n):
+    """x % n as a CONCRETE int: forks once per value (solver decides each comparison).  Used for cut positions / lengths that
+    slice lists: slicing with a symbolic bound makes CrossHair build lazy views whose every element access is symbolic."""
+    x = x % n
+    for c in range(n):
+        if x == c:
+            return c
+    return n - 1
